@@ -77,6 +77,15 @@ func c32(r *core.Run) {
 			r.Check("C32.G1", core.Key("C32.G1", fn, "record behind tolerance > unsettled"), s.Pos(), len(good) > 0 && core.OnlyBehind(fn, s, good),
 				"served traffic is recorded only when the peer's unsettled traffic is below the tolerance", "a path records served traffic without the tolerance refusal")
 		}
+		// Lk2: the read that decides the refusal and the record are one critical section
+		// of the peer's lock — two overlapping requests must not both pass the test
+		reads := core.Calls(fn, "(pkg/settlement.Interface).TransferTraffic")
+		r.Floor("C32.Lk2", "TransferTraffic reads in Debit", len(reads), 1)
+		for _, c := range append(append([]ssa.Instruction{}, reads...), sinks...) {
+			h := la.HeldAt(c)
+			r.Check("C32.Lk2", lsKey("C32.Lk2", fn, core.CalleeName(core.Common(c))+" under the peer lock"), c.Pos(), h != nil && h.Holds(AP+".lock", true),
+				"Debit reads the peer's unsettled traffic and records the new traffic while holding the peer's lock", "the tolerance test and the record are not one critical section of accountingPeer.lock (held: "+la.HeldAt(c).String()+"): two overlapping requests both pass the test and both are recorded")
+		}
 	}
 
 	// G2 Credit
